@@ -29,6 +29,7 @@ def corpus():
     progs.append(("mix3", '10 ON ERR GOTO 100\n20 ON BRK GOTO 110\n30 A=1/B:IF A THEN 30\n100 PRINT ERNO\n110 END\n'))
     progs.append(("mix4", '0 A$="X":B$=STRING$(3,A$)+HEX$(10)+STR$(2)\n5 GOSUB 0\n7 PLAY B$:HDRAW A$:A=JOYSTK(0)\n'))
     progs.append(("mix5", '10 DIM A$,B$(2),C(1,2)\n20 A$=INKEY$:B$(1)=A$:C(0,1)=VAL(A$)\n30 IF C(0,1)>0 THEN 10 ELSE IF C(0,1)<0 THEN 20 ELSE 30\n'))
+    progs.append(("ctl-chars", '10 PRINT "PAGE\x0cBREAK"\n20 A$="X\x1cY":B$="\x85\x0b\x1d\x1e"\n30 REM \x0c \x85 \x1c\n40 DATA A\x0bB,"C\x0cD"\n50 GOTO 10\n'))
     progs.append(("mix6", '10 X=1\n20 IF X=1 THEN X=2:GOTO 40\n30 X=3\n40 PRINT X\n'))
     return progs
 
@@ -248,7 +249,7 @@ def cli(run, scratch):
                         if (err is None) != exp.ok:
                             run.violation("cli-outcome-differs", {"cli"}, case, f"start({argv}) -> {err}; convert -> {exp.kind}")
                         continue
-                    got = open(outp, "rb").read().decode("latin-1")
+                    got = open(outp, "r", newline="").read()  # same default text encoding as the tool's argparse.FileType("w")
                     want = exp.text.replace("\n", "\r")
                     if got != want:
                         k = next((i for i in range(min(len(got), len(want))) if got[i] != want[i]), min(len(got), len(want)))
